@@ -44,7 +44,11 @@ func verifH_C08_random() {
 		return
 	}
 	verifAssertBytesEq([]byte(s2), []byte(verifEnc32(r2)), "second-secret-is-base32-of-the-next-random-bytes")
+	// a returned secret is a value: later calls (which reuse whatever scratch memory the
+	// implementation keeps) leave it unchanged
+	verifAssertBytesEq([]byte(s1), []byte(verifEnc32(r1)), "first-secret-unchanged-by-later-calls")
 	if verifSymbolic() {
+		verifAssert(verifResultOwned(s1) && verifResultOwned(s2), "secret-shares-no-memory-with-package-state")
 		verifAssert(!verifDependsOnFirstStream(s2), "second-secret-independent-of-first-stream")
 	}
 }
